@@ -10,4 +10,7 @@ I4 == <<1, 1, 2, 2>>
 S5 == {1, 2, 3, 4, 5}
 G5 == <<"A", "B", "A", "K", "C">>   \* slot 5: the default generator of a class attribute, used through the class
 I5 == <<1, 1, 2, 2, 0>>
+S6 == {1, 2, 3, 4, 5, 6}
+G6 == <<"A", "B", "A", "K", "C", "N">>   \* slot 6: a counter under a parameter that is not time-dependent
+I6 == <<1, 1, 2, 2, 0, 1>>
 ====
